@@ -398,8 +398,10 @@ Definition spec_res_ok (extra : bool) (t : pt) (args : list value) (kw : list (n
   | RMultiple n => extra && kw_mem n kw && mem n (firstn (length args) ns)
   | RUnexpected n => extra && kw_mem n kw && negb (mem n ns)
   | RPositional rq al g =>
+      (* the property fixes the two counts; "given" may or may not count the
+         keyword arguments (CPython itself counts positional values only) *)
       extra && surplus ns args && Nat.eqb rq (req t) && Nat.eqb al (nleaves t)
-      && Nat.eqb g (length args + length kw)
+      && Nat.leb (length args) g && Nat.leb g (length args + length kw)
   | ROther => false
   end.
 
